@@ -39,6 +39,8 @@ def g_oidlist(r, allow_empty=True):
             return r.choice(["cn", "CN", "Cn", "sn", "SN", "top", "TOP", "Top", "objectClass", "objectclass", "msDS-Foo", "msds-foo"])
         if x < 0.19:
             return r.choice(["a-", "abc-", "a--b", "x-1-", "msDS-Foo--", "a-b-c"])
+        if x < 0.23:  # descriptors spelled like clause keywords (any keystring is a descr)
+            return r.choice(["MAY", "MUST", "NAME", "DESC", "SUP", "NOT", "AUX", "USAGE", "OBSOLETE", "SYNTAX", "ABSTRACT", "EQUALITY", "X-A", "may", "Must"])
         return gv.g_oid(r)
 
     return [one() for _ in range(n)]
